@@ -94,6 +94,9 @@ func VerifC12Mutex() {
 		if names[t] == 1 {
 			src = "wb(k)\nwb(0)"
 		}
+		if zz.Param("TWICE", 1) == 0 {
+			src = src[:5] // one block per thread
+		}
 		a, err := parser.ParseWithRuntime("t", src, erp)
 		zz.Assert(err == nil && a.Runtime.Validate() == nil, "C12.setup-thread")
 		asts[t] = a
@@ -115,7 +118,7 @@ func VerifC12Mutex() {
 	for t := 0; t < nt; t++ {
 		if names[t] == 0 {
 			na++ // first block
-			if exits[t] != 1 {
+			if exits[t] != 1 && zz.Param("TWICE", 1) == 1 {
 				na++ // second block (not reached when the first call raised an error)
 			}
 		}
